@@ -21,16 +21,16 @@ template <typename ForwardIt, typename Size, typename ValueT, typename Predicate
     }
 
     auto localCounter = Size{};
-    ForwardIt found   = nullptr;
+    auto found        = first;
 
     for (; first != last; ++first) {
         if (pred(*first, value)) {
-            localCounter++;
-            if (found == nullptr) {
-                found = first;
+            if (localCounter == Size{}) {
+                found = first; // a new run starts here
             }
+            ++localCounter;
         } else {
-            localCounter = 0;
+            localCounter = Size{};
         }
 
         if (localCounter == count) {
